@@ -20,7 +20,7 @@ func init() { sim.Register(c07{}) }
 
 func (c07) ID() string     { return "C07" }
 func (c07) Level() string  { return "exploration" }
-func (c07) QuickRuns() int { return 5000 }
+func (c07) QuickRuns() int { return 60000 }
 func (c07) Rule() string {
 	return "each evaluation is one straight-line emitter history (1-40 calls from the non-control-transfer method catalogue incl. every immediate method under right and wrong tracked widths, REP/SEP/AssumeREP/AssumeSEP with arbitrary masks, labels, comments, optional base) whose accepted bytes are then executed on cpu65c816 (bus.Bus + SimMem) and cpualt (closures + SimMem), with each mid-program Assume* injected into the CPU as an external flag change at that boundary; distinct = distinct scenario hash; non-trivial = at least one immediate method was refused for width or an Assume* occurred after the first instruction"
 }
